@@ -43,6 +43,10 @@ def seq_script(cat, rng, ops, domain):
             b.clear(cur)
             prev_line = prev_val = None
             continue
+        if op == "r":
+            # a reservation must not end the current run of equal items
+            b.raw("reserve_regions %s %s" % (cur, cur if (cat["caps"]["clone"] and rng.below(2)) else ""), ("eq", "ok"), shape="rsvr")
+            continue
         if op == "f" and cat["caps"]["clone"]:
             # clone_from into a destination with its own, different history (and its own remembered item)
             gen += 1
@@ -138,7 +142,7 @@ def generate(seed, tier, rnd=0):
             dom = domain_for(cat, rng, 2 + rng.below(2))
             ops = []
             for _ in range(2 + rng.below(14)):
-                r = rng.below(15)
-                ops.append("c" if r == 0 else "m" if r == 1 else "k" if r == 2 else "s" if r == 3 else "f" if r == 4 else rng.below(len(dom)))
+                r = rng.below(16)
+                ops.append("c" if r == 0 else "m" if r == 1 else "k" if r == 2 else "s" if r == 3 else "f" if r == 4 else "r" if r == 5 else rng.below(len(dom)))
             out.append(seq_script(cat, rng.fork(), ops, dom))
     return out
